@@ -77,5 +77,7 @@ package recorder
 //@   ensures result1 == nil ==> result0 != nil
 //@   check [C11,C03] sitehappened("validate", 1) ==> result1 == nil ==> result0 != nil && result0.MinSecs == thermalRecorderConfig.MinSecs && result0.MaxSecs == thermalRecorderConfig.MaxSecs && result0.PreviewSecs == thermalRecorderConfig.PreviewSecs && result0.ConstantRecorder == thermalRecorderConfig.ConstantRecorder
 //@   check [C03] result1 == nil ==> sitehappened("validate", 1)
+//@   check [C02,C03,C04,C05,C11] sitehappened("Unmarshal", 1) ==> sitearg("Unmarshal", 1, 1) == config.ThermalRecorderKey
+//@   check [C04,C11] sitehappened("Unmarshal", 3) ==> sitearg("Unmarshal", 2, 1) == config.LocationKey && sitearg("Unmarshal", 3, 1) == config.WindowsKey
 //@   check [C03] sitehappened("validate", 1) ==> result1 == nil ==> siteres("validate", 1) == nil && result0.MaxSecs >= result0.MinSecs
 //@   check [C11,C04] sitehappened("New", 1) ==> sitearg("New", 1, 0) == windowsConfig.StartRecording && sitearg("New", 1, 1) == windowsConfig.StopRecording
